@@ -1,106 +1,89 @@
 (* C15 -- A failed write call does not poison the archive.
    Statements only; the model is coq/theories/WSession.v (the write session of SevenZipFile as a
-   state machine with fault points), the proofs are in coq/theories/WSessionProofs.v.
+   state machine with fault points, for the code WITH the repair `_register_and_archive`: a member
+   is forgotten again when Worker.archive fails), the proofs are in coq/theories/WSessionProofs.v.
    D / dg / deq: the per-member digest and its equality test (CRC-32 and Z.eqb in the executable
-   instance run32 / abs32 that the harness runs against the implementation). *)
+   instance run32 / abs32 that the harness runs against the implementation).
+   fires a s : the fault of source s fires when s is handed to entry point a;
+   dirty a s : it is read() raising after k > 0 bytes (the only failure that leaves bytes behind). *)
 From P7 Require Import Prelude Crc32 WSession WSessionProofs.
 Open Scope Z_scope.
 
-(* [failed_call_no_effect], faults detected before registration (source missing / lstat raising,
-   arcname or argument rejected), any entry point, any reachable state: the exception reaches the
-   caller, a reader of the closed archive sees no difference, and the state is unchanged except
-   that write() has already run header.initialize() *)
-Theorem C15_failed_call_no_effect_pre :
-  forall (D : Type) (dg : bytes -> D) (deq : D -> D -> bool) (st : wstate D) (a : api) (s : src) (k : fault),
-  reachable dg st -> s_fault s = Some k -> pre_fault (f_kind k) = true ->
-  exists st', wstep dg st (OCall a s) = (st', Raised) /\ abs dg deq st' = abs dg deq st /\
-              (st' = st \/ st' = set_init st).
-Proof. exact (@failed_call_no_effect_pre_reach). Qed.
-Print Assumptions C15_failed_call_no_effect_pre.
+(* [failed_call_no_effect]: any entry point, any reachable state, any fault that fires (source
+   missing, lstat / open / readlink raising once or for good, file removed after lstat, dangling
+   link, arcname or argument rejected, read raising at the first byte): the exception reaches the
+   caller, the state is the one before the call (write() may have run header.initialize()), and a
+   reader of the closed archive sees no difference *)
+Theorem C15_failed_call_no_effect :
+  forall (D : Type) (dg : bytes -> D) (deq : D -> D -> bool) (st : wstate D) (a : api) (s : src),
+  reachable dg st -> fires a s = true -> dirty a s = false ->
+  exists st', wstep dg st (OCall a s) = (st', Raised) /\ (st' = st \/ st' = set_init st) /\
+              abs dg deq st' = abs dg deq st.
+Proof. exact (@failed_call_no_effect). Qed.
+Print Assumptions C15_failed_call_no_effect.
 
 Theorem C15_failed_writeall_root_no_effect :
   forall (D : Type) (dg : bytes -> D) (st : wstate D) l, wstep dg st (OWriteall true l) = (st, Raised).
 Proof. exact (@failed_writeall_root_no_effect). Qed.
 Print Assumptions C15_failed_writeall_root_no_effect.
 
-(* [failed_call_no_effect] at full strength is FALSE of the code: write() registers the member
-   before Worker.archive opens the source.  Witness: writestr(x); write(a) with open() raising. *)
-Theorem C15_failed_call_no_effect_refuted : exists st op st',
-  reachable crc32 st /\ wstep32 st op = (st', Raised) /\
-  abs32 st = Some [(0, MData [88; 88])] /\ abs32 st' = None.
-Proof. exact failed_call_no_effect_refuted. Qed.
-Print Assumptions C15_failed_call_no_effect_refuted.
+(* read() raising after k > 0 bytes: the exception reaches the caller, no entry and no sub-stream
+   stays behind; the only trace is the bytes c already fed to the folder's compressor *)
+Theorem C15_failed_read_effect :
+  forall (D : Type) (dg : bytes -> D) (st : wstate D) (a : api) (s : src),
+  reachable dg st -> fires a s = true ->
+  exists i c, wstep dg st (OCall a s) = (fail_state st i c, Raised) /\ (i = ws_init st \/ i = true) /\
+              (dirty a s = false -> c = []).
+Proof. exact (@failed_read_effect). Qed.
+Print Assumptions C15_failed_read_effect.
 
-(* ... whatever is written afterwards the archive stays unreadable and the later valid call raises *)
-Theorem C15_open_failure_poisons :
-  snd (run32 st0 ops_open_sticky) = [Returned; Raised; Raised] /\
-  abs32 (fst (run32 st0 ops_open_sticky)) = None /\
-  map expected_out ops_open_sticky = [Returned; Raised; Returned] /\
-  flat_map expected ops_open_sticky = [(0, MData [88; 88]); (4, MData [89; 89; 89])].
-Proof. exact open_failure_poisons. Qed.
-Print Assumptions C15_open_failure_poisons.
+(* the worker never lags behind the registered entries: no call works on an earlier call's member *)
+Theorem C15_worker_in_step :
+  forall (D : Type) (dg : bytes -> D) (st : wstate D), reachable dg st ->
+  ws_pend st = [] /\ ws_cur st = length (ws_files st).
+Proof. exact (@worker_in_step). Qed.
+Print Assumptions C15_worker_in_step.
 
-Theorem C15_open_failure_once_poisons :
-  snd (run32 st0 ops_open_once) = [Returned; Raised; Returned] /\
-  abs32 (fst (run32 st0 ops_open_once)) = None /\
-  map fst (ws_subs (fst (run32 st0 ops_open_once))) = [2%nat; 4%nat] /\
-  ws_cur (fst (run32 st0 ops_open_once)) = 2%nat /\ length (ws_files (fst (run32 st0 ops_open_once))) = 3%nat.
-Proof. exact open_failure_once_poisons. Qed.
-Print Assumptions C15_open_failure_once_poisons.
+(* [no_retry]: ANY history, ANY faults: every entry of the closed archive was registered by a call
+   (or writeall member) whose fault did not fire; nothing of a failed source is an entry *)
+Theorem C15_no_retry :
+  forall (D : Type) (dg : bytes -> D) ops (st : wstate D) outs, run dg st0 ops = (st, outs) ->
+  ws_pend st = [] /\
+  forall f, In f (ws_files st) -> exists a s, In (a, s) (flat_map op_srcs ops) /\ fires a s = false /\
+                                               full_member f = full_member (file_of_src a s).
+Proof. exact (@no_retry). Qed.
+Print Assumptions C15_no_retry.
 
-(* [no_retry] is FALSE: write(a) raises (open fails once), write(dir) returns, and the archive holds a *)
-Theorem C15_no_retry_refuted :
-  snd (run32 st0 ops_retry) = [Raised; Returned] /\
-  failed_of ops_retry (snd (run32 st0 ops_retry)) = [1] /\
-  abs32 (fst (run32 st0 ops_retry)) = Some [(1, MData [65; 65; 65; 65]); (3, MDir)] /\
-  flat_map expected ops_retry = [(3, MDir)].
-Proof. exact no_retry_refuted. Qed.
-Print Assumptions C15_no_retry_refuted.
-
-(* [later_writes_intact] for all histories whose faults are all detected before registration is
-   FALSE even without any fault: write(symlink) after writestr raises AttributeError after the
-   link was registered *)
-Theorem C15_later_writes_intact_refuted :
-  forallb pre_only ops_link_after_data = true /\
-  map expected_out ops_link_after_data = [Returned; Returned] /\
-  snd (run32 st0 ops_link_after_data) = [Returned; Raised] /\
-  abs32 (fst (run32 st0 ops_link_after_data)) = None.
-Proof. exact later_writes_intact_refuted. Qed.
-Print Assumptions C15_later_writes_intact_refuted.
-
-(* [later_writes_intact], what does hold: histories of any length over write/writestr/writef/
-   writeall whose faults are all detected before registration and in which no symbolic link is
-   written once an in-memory member exists: every failure reaches the caller (and only those calls
-   raise), and a reader of the closed archive gets exactly the members of the calls that returned,
-   in order, with their complete bytes *)
-Theorem C15_later_writes_intact_partial :
+(* [later_writes_intact]: histories of any length over write/writestr/writef/writeall with any
+   number of faults of any kind except read() raising after k > 0 bytes: exactly the calls whose
+   fault fires raise, and a reader of the closed archive gets exactly the members of the calls
+   that returned (writeall: the members before the failing one), in order, with their complete
+   bytes.  Covers the open-failure histories and symlink-after-writestr that poisoned the archive
+   before the repair. *)
+Theorem C15_later_writes_intact :
   forall (D : Type) (dg : bytes -> D) (deq : D -> D -> bool), (forall a b, deq a b = true <-> a = b) ->
-  forall ops, forallb pre_only ops = true -> links_ok false ops = true ->
+  forall ops, forallb clean_op ops = true ->
   exists st, run dg st0 ops = (st, map expected_out ops) /\ abs dg deq st = Some (flat_map expected ops).
-Proof. exact (@later_writes_intact_partial). Qed.
-Print Assumptions C15_later_writes_intact_partial.
+Proof. exact (@later_writes_intact). Qed.
+Print Assumptions C15_later_writes_intact.
 
-Theorem C15_later_writes_intact_crc32 : forall ops,
-  forallb pre_only ops = true -> links_ok false ops = true ->
+Theorem C15_later_writes_intact_crc32 : forall ops, forallb clean_op ops = true ->
   exists st, run32 st0 ops = (st, map expected_out ops) /\ abs32 st = Some (flat_map expected ops).
 Proof. exact later_writes_intact_crc32. Qed.
 Print Assumptions C15_later_writes_intact_crc32.
 
-(* [no_retry], what does hold: in those histories every member of the archive comes from a source
-   without fault *)
-Theorem C15_no_retry_partial :
-  forall (D : Type) (dg : bytes -> D) (deq : D -> D -> bool), (forall a b, deq a b = true <-> a = b) ->
-  forall ops, forallb pre_only ops = true -> links_ok false ops = true ->
-  exists st outs ms, run dg st0 ops = (st, outs) /\ abs dg deq st = Some ms /\
-    forall m, In m ms -> exists a s, In (a, s) (flat_map op_srcs ops) /\ has_fault s = false /\
-                                     m = full_member (file_of_src a s).
-Proof. exact (@no_retry_partial). Qed.
-Print Assumptions C15_no_retry_partial.
+(* [midway_failure_not_wrong], per member: ANY history with ANY faults (sources failing after
+   k > 0 bytes included, any number of times): if the closed archive can be read at all, its
+   entries are the registered members, and for each the reader gets either the complete bytes of
+   its source or a check failure -- never other bytes.  Digest assumed injective. *)
+Theorem C15_midway_member_right :
+  forall (D : Type) (dg : bytes -> D) (deq : D -> D -> bool),
+  (forall a b, deq a b = true <-> a = b) -> (forall x y, dg x = dg y -> x = y) ->
+  forall ops st outs ms, run dg st0 ops = (st, outs) -> abs dg deq st = Some ms ->
+  Forall2 right_or_crc (ws_files st) ms.
+Proof. exact (@midway_member_right). Qed.
+Print Assumptions C15_midway_member_right.
 
-(* [midway_failure_not_wrong]: ANY history with ANY faults (sources failing to open or failing
-   after k bytes, once or for good, retried behind the caller's back or not): if the closed
-   archive can be read and every member passes its check, every registered member is there with
-   the complete bytes of its source.  Digest assumed injective (see C15_hyps_satisfiable). *)
 Theorem C15_midway_failure_not_wrong :
   forall (D : Type) (dg : bytes -> D) (deq : D -> D -> bool),
   (forall a b, deq a b = true <-> a = b) -> (forall x y, dg x = dg y -> x = y) ->
@@ -109,17 +92,37 @@ Theorem C15_midway_failure_not_wrong :
 Proof. exact (@midway_failure_not_wrong). Qed.
 Print Assumptions C15_midway_failure_not_wrong.
 
-(* per member the claim is FALSE: after writef(a) failed once after 3 of 8 equal bytes, the next
-   call re-reads a from where it stopped; member a passes its CRC with 5 bytes, the following member
-   fails its CRC *)
-Theorem C15_midway_member_refuted :
-  snd (run32 st0 ops_midway) = [Returned; Raised; Returned; Returned] /\
+(* members written BEFORE a call that failed after k > 0 bytes: all present and intact as soon as
+   a member with data is written after the failed call (every call's outcome is as expected; the
+   members after the failed call are listed) *)
+Theorem C15_members_before_intact :
+  forall (D : Type) (dg : bytes -> D) (deq : D -> D -> bool), (forall a b, deq a b = true <-> a = b) ->
+  forall pre a s post,
+  forallb clean_op pre = true -> forallb clean_op post = true -> fires a s = true ->
+  datas (flat_map expected post) <> [] ->
+  exists st tail, run dg st0 (pre ++ OCall a s :: post) = (st, map expected_out (pre ++ OCall a s :: post)) /\
+    abs dg deq st = Some (flat_map expected pre ++ tail) /\ map fst tail = map fst (flat_map expected post).
+Proof. exact (@members_before_intact). Qed.
+Print Assumptions C15_members_before_intact.
+
+(* ... and FALSE otherwise: with nothing with data written afterwards, the last member written
+   before the failed call absorbs the stray bytes and fails its check *)
+Theorem C15_member_before_midway_failure_refuted :
+  forallb clean_op [OCall AWritestr sx; OCall AWritestr sw] = true /\
+  snd (run32 st0 ops_midway_last) = [Returned; Returned; Raised; Returned] /\
+  ws_garb (fst (run32 st0 ops_midway_last)) = 3%nat /\
+  abs32 (fst (run32 st0 ops_midway_last)) = Some [(0, MData [88; 88]); (9, MCrc); (3, MDir)].
+Proof. exact member_before_midway_failure_refuted. Qed.
+Print Assumptions C15_member_before_midway_failure_refuted.
+
+Theorem C15_midway_failure_example :
+  snd (run32 st0 ops_midway) = [Returned; Returned; Raised; Returned; Returned] /\
   map (fun f => (w_name f, w_data f)) (ws_files (fst (run32 st0 ops_midway))) =
-    [(0, [88; 88]); (1, [65; 65; 65; 65; 65; 65; 65; 65]); (4, [89; 89; 89]); (3, [])] /\
+    [(0, [88; 88]); (9, [87; 87; 87]); (4, [89; 89; 89]); (3, [])] /\
   abs32 (fst (run32 st0 ops_midway)) =
-    Some [(0, MData [88; 88]); (1, MData [65; 65; 65; 65; 65]); (4, MCrc); (3, MDir)].
-Proof. exact midway_member_refuted. Qed.
-Print Assumptions C15_midway_member_refuted.
+    Some [(0, MData [88; 88]); (9, MData [87; 87; 87]); (4, MCrc); (3, MDir)].
+Proof. exact midway_failure_example. Qed.
+Print Assumptions C15_midway_failure_example.
 
 (* the hypotheses on the digest are satisfiable *)
 Theorem C15_hyps_satisfiable : exists (D : Type) (dg : bytes -> D) (deq : D -> D -> bool),
@@ -128,26 +131,29 @@ Proof. exact hyps_satisfiable. Qed.
 
 (* non-vacuity: concrete non-trivial instances of the hypotheses of the implications above *)
 Example C15_later_writes_intact_example :
-  let ops := [OCall AWrite slink; OCall AWritestr sx; OCall AWrite s_missing; OCall AWritef s_badname;
-              OWriteall false [sdir; sb; mkSrc 8 KFile [69] (Some (mkFault FStat true)); sy];
+  let ops := [OCall AWritestr sx; OCall AWrite (sa_open true); OCall AWrite slink; OCall AWrite s_missing;
+              OCall AWritef s_badname; OCall AWrite s_dangling; OCall AWritef (sa_read 0 false);
+              OWriteall false [sdir; sb; sa_open false; sy];
               OWriteall true [sdir]; OCall AWritef sy] in
-  forallb pre_only ops = true /\ links_ok false ops = true /\
-  snd (run32 st0 ops) = [Returned; Returned; Raised; Raised; Raised; Raised; Returned] /\
+  forallb clean_op ops = true /\
+  snd (run32 st0 ops) = [Returned; Raised; Returned; Raised; Raised; Raised; Raised; Raised; Raised; Returned] /\
   abs32 (fst (run32 st0 ops)) =
-    Some [(5, MData [116]); (0, MData [88; 88]); (3, MDir); (2, MData [66; 66; 66]); (4, MData [89; 89; 89])].
+    Some [(0, MData [88; 88]); (5, MData [116]); (3, MDir); (2, MData [66; 66; 66]); (4, MData [89; 89; 89])].
 Proof. exact later_writes_intact_example. Qed.
 
-Example C15_failed_call_no_effect_pre_example :
+Example C15_failed_call_no_effect_example :
   let st := fst (run32 st0 [OCall AWritestr sx]) in
-  wstep32 st (OCall AWrite s_missing) = (set_init st, Raised) /\ abs32 (set_init st) = abs32 st /\
-  wstep32 st0 (OCall AWrite s_missing) = (set_init st0, Raised) /\ set_init (D:=Z) st0 <> st0 /\
-  abs32 (set_init st0) = Some [] /\ abs32 st0 = Some [].
-Proof. exact failed_call_no_effect_pre_example. Qed.
+  fires AWrite (sa_open true) = true /\ dirty AWrite (sa_open true) = false /\
+  wstep32 st (OCall AWrite (sa_open true)) = (st, Raised) /\
+  wstep32 st0 (OCall AWrite (sa_open false)) = (set_init st0, Raised) /\ set_init (D:=Z) st0 <> st0 /\
+  abs32 (set_init st0) = Some [] /\ abs32 st0 = Some [] /\
+  fires AWritef (sa_read 3 true) = true /\ dirty AWritef (sa_read 3 true) = true /\
+  fires AWritestr (sa_read 3 true) = false /\ fires AWrite (mkSrc 3 KDir [] (Some (mkFault FOpen true))) = false.
+Proof. exact failed_call_no_effect_example. Qed.
 
-Example C15_midway_example :
-  let ops := [OCall AWritestr sx; OCall AWritef (sa_read 0 false); OCall AWrite sdir] in
-  snd (run32 st0 ops) = [Returned; Raised; Returned] /\
-  abs32 (fst (run32 st0 ops)) = Some [(0, MData [88; 88]); (1, MData [65; 65; 65; 65; 65; 65; 65; 65]); (3, MDir)] /\
-  ws_garb (fst (run32 st0 [OCall AWritef (sa_read 3 true)])) = 3%nat /\
-  abs32 (fst (run32 st0 [OCall AWritef (sa_read 3 true)])) = None.
-Proof. exact midway_example. Qed.
+Example C15_members_before_intact_example :
+  forallb clean_op [OCall AWritestr sx; OCall AWritestr sw] = true /\
+  forallb clean_op [OCall AWritestr sy; OCall AWrite sdir] = true /\
+  fires AWritef (sa_read 3 false) = true /\
+  flat_map expected [OCall AWritestr sy; OCall AWrite sdir] = [(4, MData [89; 89; 89]); (3, MDir)].
+Proof. exact members_before_intact_example. Qed.
